@@ -24,13 +24,19 @@ META = dict(
          "Concurrent stage: 8 goroutines (GOMAXPROCS 8) replay all "
          "3-request sequences over mostly valid cur/prev tokens at once against ONE transition route (>= 30k requests "
          "quick, >= 150k thorough), each request judged by its own step and its own (unique) claims. "
-         "AuthSig.tla: full product of method x fingerprint x secret x timestamp offset (exact tolerance "
+         "AuthSig.tla: full product of method x fingerprint x secret (honest / not base64 / encrypted for the other key / "
+         "one byte of the last RSA block altered) x timestamp offset (exact tolerance "
          "boundaries, and int64 extremes: now+-2^55(+-1), +-2^56, +-2^62, 0, MaxInt64, MinInt64) x server construction x every set of <= 1 (thorough 2) fields altered after signing x body delivery (known "
          "Content-Length, unknown length on the recorder, chunked over a real loopback connection) x key layout of the "
          "server (one signature-protected route group holding both keys; two groups with one key each; two groups that "
          "use the same fingerprint name for different keys) x the group the request is sent to: a route admits only "
          "under a key configured for its own group, a header that decrypts under the other group's key only gets 403 "
-         "(servers are built from the route-group -> fingerprint -> key map of the case). AuthRpc.tla: strict/lenient x "
+         "(servers are built from the route-group -> fingerprint -> key map of the case); and the LENGTH of the secret's "
+         "plaintext relative to the payload B = k-11 of one PKCS#1 v1.5 block of the key it is encrypted for (the two "
+         "configured keys are 2048 and 1024 bit): short, B-1, B, B+1, 2B, 2B+1, 3B+7 (quick: B, B+1, 2B, 2B+1), reached "
+         "with a long HMAC key and a filler attribute and encrypted block-wise with crypto/rsa the way lib/codec/rsa.go "
+         "crypt() chunks (1-4 RSA blocks): the verdict never depends on it - a correctly signed multi-block request is "
+         "admitted, each single altered field denies it. AuthRpc.tla: strict/lenient x "
          "a store that changes between calls (token stored / replaced / deleted, store down / up again) x every "
          "sequence of up to 3 calls over app/token present/empty/absent/matching/differing, unary and stream; a call "
          "may be judged by the store as it is now or by a token seen at an earlier successful lookup (a cache), "
@@ -41,7 +47,7 @@ META = dict(
     note="Trusted: TLC, golang-jwt as token minter, crypto/rsa+hmac as honest client, miniredis, httptest recorder "
          "(a real loopback listener only for the signature cases delivered 'wire'). Not covered: non-strict signature mode and methods other than GET/POST/PUT/DELETE "
          "(the statement is about strict mode and these methods), encrypted bodies (type=1, CryptoHandler), the "
-         "X-Request-Uri override, unsigned callbacks, unauthorized callbacks that write a status other than 401, a bare token without 'Bearer ' prefix, iat in "
+         "X-Request-Uri override, lib/codec's own rsaEncryptor (client side: the driver encrypts with crypto/rsa), unsigned callbacks, unauthorized callbacks that write a status other than 401, a bare token without 'Bearer ' prefix, iat in "
          "the future, expiry of the authenticator's 5-minute cache (its timing wheel runs on a real ticker), "
          "real redis connection loss (the failing store answers every command with an error). A token without any "
          "time claim may be admitted or rejected (statement silent). Signature timestamps use the real clock: "
@@ -59,12 +65,22 @@ CALLBACKS = '{"none","silent","header","writes401"}'
 LAYOUTS = '{"one","split","alias"}'
 
 
+def sig_lens(ctx):
+    """lengths of the secret's plaintext (relative to one RSA block payload B = k-11) driven besides 'short'"""
+    return ["B", "B+1", "2B", "2B+1"] + ([] if ctx.quick else ["B-1", "long"])
+
+
+def tla_set(xs):
+    return "{" + ",".join('"%s"' % x for x in xs) + "}"
+
+
 def sigk(ctx, servers):
     """constants of the signature spec: the layouts with two route groups get a reduced product in the quick tier"""
     q = ctx.quick
     return dict(MaxTamper=(1 if q else 2), Servers=servers, Layouts=LAYOUTS,
                 SideMethods=('{"GET","POST"}' if q else "Methods"),
-                SideOffsets=('{"now","+tol","-tol-1","garbage"}' if q else "Offsets \\ Extremes"))
+                SideOffsets=('{"now","+tol","-tol-1","garbage"}' if q else "Offsets \\ Extremes"),
+                SLens=tla_set(sig_lens(ctx)))
 
 
 CONC_K = dict(Tokens="ConcTokens", Cfgs='{"transition"}', Servers='{"default"}', Callbacks='{"header"}', MaxReq=3)
@@ -86,7 +102,7 @@ def mc(ctx):
 
 
 SIG_INVARIANTS = ["AnyTamperDenied", "HonestPasses", "OutsideToleranceDenied", "TransportIrrelevant", "ServerIrrelevant",
-                  "OneGroupAsBefore", "ForeignKeyDenied", "OwnGroupOnly"]
+                  "OneGroupAsBefore", "ForeignKeyDenied", "OwnGroupOnly", "LengthIrrelevant"]
 
 
 def gen(ctx, module, name, K, simulate=None, depth=None):
@@ -180,6 +196,19 @@ def vacuity(ctx, sig_cases, conc, need):
             miss.append("sig.pass." + lg)
         if not lg.startswith("one.") and tot.get("sig.foreign-key-denied." + lg, 0) == 0:
             miss.append("sig.foreign-key-denied." + lg)
+    # every offered secret length was admitted (honest, chunk-encrypted secret) under both RSA key sizes, refused
+    # when a signed field was altered, and the secrets really had the number of RSA blocks the specification says
+    for sl in ["short"] + sig_lens(ctx):
+        for k in ("KA", "KB"):
+            if tot.get("sig.pass.len-%s.%s" % (sl, k), 0) == 0:
+                miss.append("sig.pass.len-%s.%s" % (sl, k))
+        if tot.get("sig.tampered-denied.len-" + sl, 0) == 0:
+            miss.append("sig.tampered-denied.len-" + sl)
+    for n in (1, 2, 3) + (() if ctx.quick else (4,)):
+        if tot.get("sig.pass.blocks-%d" % n, 0) == 0:
+            miss.append("sig.pass.blocks-%d" % n)
+    if tot.get("sig.corrupt-block-denied", 0) == 0:
+        miss.append("sig.corrupt-block-denied")
     if miss:
         raise core.Infra("vacuous run: never exercised: %s" % miss)
     nf = sum(1 for c in sig_cases if '"foreign":true' in c)
